@@ -82,6 +82,10 @@ def run(chk):
             cplx = dt == 'complex'
             n = int(rng.choice([48, 64, 96]))
             x = zoo.signal(rng, n, cplx, kind=['noise', 'tones', 'arma'][rep % 3])
+            if cplx and rep % 3 == 2:
+                # real-valued samples declared complex (complex dtype, zero imaginary part) are complex data: with a complex
+                # c the scaled record has the same datatype as the unscaled one
+                x = zoo.signal(rng, n, False, kind='arma').astype(complex)
             # (the unit of the record itself is arbitrary: millivolts, kilovolts)
             x = x * [1e-4, 1e4, 1.0][rep % 3]
             # "any non-zero scalar": both ends of twelve decades first, then random moduli
